@@ -153,7 +153,14 @@ class Adts:
                             pass
                     variants.append((vname, vkind, fields, nextd))
                     nextd += 1
-                self.enums.setdefault(name, variants)
+                if name in self.enums and [v[0] for v in self.enums[name]] != [v[0] for v in variants]:
+                    # same name defined twice (function-local enums): keep both
+                    k = 2
+                    while '%s#%d' % (name, k) in self.enums:
+                        k += 1
+                    self.enums['%s#%d' % (name, k)] = variants
+                else:
+                    self.enums.setdefault(name, variants)
 
     # -- queries -----------------------------------------------------------
     def variant_index(self, enum, variant):
@@ -172,6 +179,18 @@ class Adts:
         for v in self.enums[enum]:
             if v[3] == d:
                 return v
+        return None
+
+    def resolve_enum(self, name, variant):
+        """name of the enum definition called `name` that has `variant` (function-local enums may share a name)"""
+        if name in self.enums and any(v[0] == variant for v in self.enums[name]):
+            return name
+        k = 2
+        while '%s#%d' % (name, k) in self.enums:
+            alt = '%s#%d' % (name, k)
+            if any(v[0] == variant for v in self.enums[alt]):
+                return alt
+            k += 1
         return None
 
     def is_c_like(self, enum):
